@@ -29,9 +29,12 @@ NOTE_FORMS = {
     "multi": [f"o P1 {MZ} moved body words", "  * first bullet", "    - nested bullet", "  continued text"],
     "plain": [f"- {MZ} moved plain note"],
     "stamped": [f"o P2 240412 {MZ} moved stamped todo", "  * with a bullet"],
+    # the item ends with an indented whitespace-only line (an editor's auto-indent): that line
+    # is part of the item and leaves the source with it; it need not arrive in the destination
+    "trailing-ws": [f"- {MZ} note ending in a blank-looking line", "  continued", "   "],
 }
 POSITIONS = ["first", "middle", "last", "only-in-block", "under-h1", "under-h2"]
-MENTIONS = ["none", "earlier-note", "later-note", "earlier-zid-link", "self"]
+MENTIONS = ["none", "earlier-note", "later-note", "earlier-zid-link", "self", "earlier-bullet"]
 OWN_TAGS = ["none", "same-as-inherited", "extends-inherited", "own-keys-end-with-inherited-keys"]
 DESTS = ["missing-no-template", "missing-template", "header-only", "header-blank", "block-nl", "block-no-nl",
          "block-two-blank", "block-then-section", "ends-with-section-header", "mentions-zid",
@@ -59,6 +62,9 @@ def build_source(form, pos, mention, own):
         a += f" see {MZ} for more"
     elif mention == "earlier-zid-link":
         a += f" see [{MZ}] for more"
+    elif mention == "earlier-bullet":
+        # an earlier note has a nested bullet that starts with the ZID
+        a += f"\n  * related:\n    - {MZ} see this one"
     elif mention == "later-note":
         b += f" refers to {MZ} here"
     head = "# Source page #inh +proj\n# hk::hv [spaced:: two words]\n\n"
@@ -417,6 +423,9 @@ def _sig(problems, case) -> str:
 
 
 def _dest_line_algebra(before: str, after: str, note_lines, mz: str = MZ):
+    note_lines = list(note_lines)
+    while len(note_lines) > 1 and note_lines[-1].strip() == "":
+        note_lines.pop()
     """Every line of `before` is preserved in order; the note's lines (first line
     possibly with a different kind / added metadata) appear once, contiguously;
     a blank line may be consumed or added next to the insertion."""
